@@ -1,0 +1,10 @@
+//go:build verif
+
+// Contracts for gvc (/verif). Comment-only: this file adds no declarations.
+
+package store
+
+// C17 sweep: zero-annotation panic-freedom obligations for the module's functions,
+// for every argument value.
+//@ func Ns
+//@   props C17
